@@ -33,14 +33,6 @@ def wellFormed (pattern : Bytes) : Bool :=
     (paramNames pattern).all (· != []) && (paramNames pattern).eraseDups.length == (paramNames pattern).length
   | _ => false
 
-/-- what was observed: `URLFor` failed; or it returned `url` and the request for it … -/
-inductive Obs where
-  | error
-  | notRequestURI (url : Bytes)
-  | routedBack (url : Bytes) (params : List (Bytes × Bytes))
-  | notRouted (url : Bytes)
-  deriving DecidableEq, Repr
-
 /-- `vals`: name ↦ (value, escaped, "the server decodes the escaped text back to the value") -/
 def specOK (pattern : Bytes) (vals : List (Bytes × Bytes × Bytes × Bool)) (o : Obs) : Bool :=
   let names := paramNames pattern
